@@ -99,11 +99,35 @@ Theorem C16_disconnect_leaves_others : forall s c,
   ~ In c (s_reg s) -> conn_at (teardown s) c = conn_at s c.
 Proof. exact teardown_others. Qed.
 
-(* bytes a service writes go back as one frame tagged with that connection's addresses *)
-Theorem C16_write_tagged : forall s c p,
+(* bytes a service writes go back as one frame tagged with that connection's addresses,
+   carrying the bytes the buffer held when Write was called - even though the caller
+   refills the buffer (with any q) as soon as Write has returned *)
+Theorem C16_write_tagged : forall s c p q,
   s_alive s = true ->
-  step ideal_wire s (AWrite c p) = (s, RNone, [MData (vc_l (conn_at s c)) (vc_r (conn_at s c)) p]).
+  step ideal_wire s (AWrite c p q) = (s, RNone, [MData (vc_l (conn_at s c)) (vc_r (conn_at s c)) p]).
 Proof. exact write_tagged. Qed.
+
+(* buffer ownership on both outgoing queues (TCP data, datagram answers), for EVERY
+   schedule of writes, buffer refills and sender-goroutine steps: frames sent ++ frames
+   still queued (marshalled against ANY later heap h') = the buffer contents at the time
+   of each Write, in order; queued messages never refer to a caller's buffer *)
+Theorem C16_written_bytes_are_captured : forall evs s h',
+  Forall is_val (o_q s) ->
+  o_sent (orun s evs) ++ map (oframe h') (o_q (orun s evs)) =
+    (o_sent s ++ map (oframe h') (o_q s)) ++ written (o_heap s) evs /\
+  Forall is_val (o_q (orun s evs)).
+Proof. exact orun_inv. Qed.
+
+Theorem C16_agent_receives_what_was_written : forall heap evs,
+  o_q (orun (mkO heap [] []) evs) = [] -> o_sent (orun (mkO heap [] []) evs) = written heap evs.
+Proof. exact drained_is_written. Qed.
+
+Example C16_ownership_nonvacuous :
+  let l := ATcp [192;0;2;1]%N 80 in let r := ATcp [10;0;0;7]%N 40000 in
+  let evs := [OWrite l r 0; OFill 0 [9;9]%N; OUdpW l r 0; OWrite l r 0; OFill 0 [5]%N; OSend; OSend; OSend] in
+  let s := orun (mkO [[1;2]%N] [] []) evs in
+  o_q s = [] /\ o_sent s = [MData l r [1;2]%N; MUdp l r [9;9]%N; MData l r [9;9]%N].
+Proof. vm_compute. split; reflexivity. Qed.
 
 (* for EVERY sequence of agent messages and service calls (reads of any size, waiting
    or not, writes, closes, disconnect), every wire and every connection c:
@@ -180,7 +204,7 @@ Proof. exact (conj large_witness_ok hs_witness_ok). Qed.
 Example C16_session_nonvacuous :
   let l := ATcp [192;0;2;1]%N 80 in let r1 := ATcp [10;0;0;7]%N 40000 in let r2 := ATcp [10;0;0;7]%N 40001 in
   let acts := [ASend (MHello l r1); ASend (MHello l r2); ASend (MData l r2 [1;2;3]%N); APark 0 10 (MData l r1 [4;5]%N);
-               ASend (MEof l r2); ASend (MData l r2 [9]%N); ARead 1 2; ARead 1 2; ARead 1 2; AWrite 0 [7]%N; ADisc; ARead 0 5] in
+               ASend (MEof l r2); ASend (MData l r2 [9]%N); ARead 1 2; ARead 1 2; ARead 1 2; AWrite 0 [7]%N [8]%N; ADisc; ARead 0 5] in
   snd (fst (run transport sess0 acts)) =
     [RAcc l r1; RAcc l r2; RNone; RData [4;5]%N; RNone; RNone; RData [1;2]%N; RData [3]%N; REof; RNone; RNone; REof] /\
   snd (run transport sess0 acts) = [MEof l r2; MData l r1 [7]%N] /\
@@ -201,6 +225,8 @@ Print Assumptions C16_eof_ends_exactly_that_connection.
 Print Assumptions C16_disconnect_ends_registered.
 Print Assumptions C16_disconnect_leaves_others.
 Print Assumptions C16_write_tagged.
+Print Assumptions C16_written_bytes_are_captured.
+Print Assumptions C16_agent_receives_what_was_written.
 Print Assumptions C16_stream_in_order_exactly_once.
 Print Assumptions C16_closed_receives_nothing.
 Print Assumptions C16_closed_stays_closed.
